@@ -2,10 +2,13 @@
    Model: V.C05.Model (SmodelsOutput, one sm_step per AbstractProgram call) composed with the C07 reader model.
    PROVED here: exactly the documented cases are refused (c05_refuses); the normal form of a body is a permutation of
    the body (c05_perm); the leading-'9' probe ambiguity is a refutation witness (c05_probe_refuted).
-   NOT PROVED: c05_roundtrip (sm_write p = Ok t /\ read_smodels ext t = Ok (sm_norm p)) - the composition is covered by the
-   differential correspondence (model = implementation on every generated program, including the bytes written) and by the
-   independent python normaliser only.  The reader half it would rest on is C07's c07_complete. *)
-Require Import V.Lib.Base V.Lib.Calls V.Lib.Dec V.C09.Spec V.Gen.Consts V.Gen.Consts_C07 V.C07.Model V.C05.Model V.C05.Proofs.
+   c05_roundtrip_partial: the line written for a basic rule  rule(Disjunctive,[a],body)  (any body, any sign order) is read back by
+   the reader's rule dispatcher as the same rule with the body in negative-first order.
+   MISSING from the full c05_roundtrip (sm_write p = Ok t /\ read_smodels ext t = Ok (sm_norm p)): choice / disjunctive heads, the false
+   atom, cardinality / weight rules, minimize, externals, the symbol table, the compute statement, steps, and the composition of the
+   lines into sections - these are covered by the differential correspondence (model = implementation on every generated program,
+   including the bytes written) and by the independent python normaliser only.  The reader half rests on C07's lemmas. *)
+Require Import V.Lib.Base V.Lib.Calls V.Lib.Dec V.C09.Spec V.Gen.Consts V.Gen.Consts_C07 V.C07.Model V.C07.ProofsLex V.C05.Model V.C05.Proofs V.C05.ProofsRT.
 Require Import Permutation.
 Local Open Scope Z_scope.
 
@@ -21,6 +24,21 @@ Print Assumptions c05_perm.
 Theorem c05_perm_weighted : forall b : list (Z * Z), Permutation (norm_wbody b) b.
 Proof. exact norm_wbody_perm. Qed.
 Print Assumptions c05_perm_weighted.
+
+Theorem c05_roundtrip_partial : forall (o : opts) (s : wstate) a b prio r ln,
+  w_sec s = 0 -> atom_rng a = true -> forallb lit_rng b = true -> Z.of_nat (length b) <= 4294967295 -> delim r ->
+  exists t ln', sm_step s (CRule Head_t_Disjunctive [a] b) = WOk s (print_nat Sm_Basic ++ t ++ eol) /\
+                read_rule o prio Sm_Basic (amk (t ++ r) ln) = Ok ([CRule Head_t_Disjunctive [a] (norm_body b)], prio, amk r ln').
+Proof.
+  intros o s a b prio r ln Hsec Ha Hb Hlen Hr.
+  destruct (rt_basic o a b prio r ln Ha Hb Hlen Hr) as [ln' E].
+  exists (w_head Head_t_Disjunctive [a] ++ w_body b), ln'. split.
+  - cbn [sm_step]. unfold w_rule. rewrite Hsec. cbn [Z.eqb negb]. rewrite <- app_assoc. reflexivity.
+  - rewrite <- app_assoc. exact E.
+Qed.
+Print Assumptions c05_roundtrip_partial.
+Example c05_roundtrip_partial_nonvacuous : atom_rng 2147483647 = true /\ forallb lit_rng [2; -3; 2147483647; -2147483647] = true.
+Proof. split; reflexivity. Qed.
 
 (* KNOWN FINDING (judgement call, not repaired): a non-incremental extended program whose first line is an external
    directive comes back with initProgram(true) - every other call is identical *)
